@@ -110,7 +110,7 @@ def wf_message(c):
         if len(set(map(tok, bs))) != k + 1:
             return 'simplex %s of order %d has a basis of %d points: %s' % (tok(s), k, len(bs), sorted(map(tok, bs)))
         for b in bs:
-            if b not in c or c.orderOf(b) != 0:
+            if not has(c, b) or c.orderOf(b) != 0:
                 return 'basis element %s of %s is not a point of the complex' % (tok(b), tok(s))
         if k == 0:
             if len(fl) != 0:
@@ -121,7 +121,7 @@ def wf_message(c):
             if len(fl) != k + 1 or len(set(map(tok, fl))) != k + 1:
                 return 'simplex %s of order %d has %d faces: %s' % (tok(s), k, len(fl), sorted(map(tok, fl)))
             for f in fl:
-                if f not in c:
+                if not has(c, f):
                     return 'face %s of %s is not in the complex' % (tok(f), tok(s))
                 if c.orderOf(f) != k - 1:
                     return 'face %s of %s has order %d, not %d' % (tok(f), tok(s), c.orderOf(f), k - 1)
@@ -150,6 +150,11 @@ def closure_points(c, s):
                 nxt[tok(f)] = f
         level = nxt
     return set(level.keys())
+
+def has(c, s):
+    """membership by the listing, not by the library's `in` (which is itself under test)"""
+    t = tok(s)
+    return any(tok(x) == t for x in c.simplices())
 
 def vs(c, s):
     """the vertex set of s as a frozenset of name tokens, read through faces() only: an oracle that
@@ -306,9 +311,9 @@ def classify(c, line, w=None):
     names = lambda: T.names()
     if kw == 'add':
         fs = names(); id = T.optname()
-        if id is not None and id in c:
+        if id is not None and has(c, id):
             return 'invalid'
-        if any(f not in c for f in fs):
+        if any(not has(c, f) for f in fs):
             return 'invalid'
         if len(set(map(tok, fs))) != len(fs):
             return 'invalid'
@@ -328,11 +333,11 @@ def classify(c, line, w=None):
         bs = names(); id = T.optname()
         if len(bs) == 0 or len(set(map(tok, bs))) != len(bs):
             return 'ooc'
-        if id is not None and id in c:
+        if id is not None and has(c, id):
             return 'invalid'
-        if any(b in c and c.orderOf(b) != 0 for b in bs):
+        if any(has(c, b) and c.orderOf(b) != 0 for b in bs):
             return 'invalid'
-        if all(b in c for b in bs):
+        if all(has(c, b) for b in bs):
             want = set(map(tok, bs))
             for t in c.simplicesOfOrder(len(bs) - 1):
                 if set(map(tok, c.basisOf(t))) == want:
@@ -344,16 +349,16 @@ def classify(c, line, w=None):
         return 'valid'
     if kw == 'ensure':
         bs = names()
-        if any(b in c and c.orderOf(b) != 0 for b in bs):
+        if any(has(c, b) and c.orderOf(b) != 0 for b in bs):
             return 'invalid'
         return 'valid' if len(set(map(tok, bs))) == len(bs) else 'ooc'
     if kw == 'del':
-        return 'valid' if T.name() in c else 'invalid'
+        return 'valid' if has(c, T.name()) else 'invalid'
     if kw == 'delb':
         bs = names()
         if len(bs) == 0 or len(set(map(tok, bs))) != len(bs):
             return 'ooc'
-        if any(b not in c or c.orderOf(b) != 0 for b in bs):
+        if any(not has(c, b) or c.orderOf(b) != 0 for b in bs):
             return 'invalid'
         want = set(map(tok, bs))
         ok = any(set(map(tok, c.basisOf(t))) == want for t in c.simplices())
@@ -362,17 +367,17 @@ def classify(c, line, w=None):
         return 'valid'
     if kw == 'restrict':
         bs = names()
-        if any(b not in c or c.orderOf(b) != 0 for b in bs):
+        if any(not has(c, b) or c.orderOf(b) != 0 for b in bs):
             return 'invalid'
         return 'valid'
     if kw == 'subdiv':
         s = T.name()
-        if s not in c or c.orderOf(s) == 0:
+        if not has(c, s) or c.orderOf(s) == 0:
             return 'invalid'
         return 'valid'
     if kw == 'relabel1':
         s = T.name(); q = T.name()
-        if s not in c or q in c:
+        if not has(c, s) or has(c, q):
             return 'invalid'
         return 'valid'
     if kw == 'relabel':
@@ -412,7 +417,7 @@ def classify(c, line, w=None):
         else:
             return 'other'
         nt = [tok(x) for x in new]
-        if len(set(nt)) != len(nt) or any(x in c for x in new):
+        if len(set(nt)) != len(nt) or any(has(c, x) for x in new):
             return 'ooc'        # bulk add onto names in use: not a documented atomic rejection
         return 'valid'
     if kw == 'copyinto':
